@@ -1,6 +1,6 @@
 (* C03 — the client receives the backend's response unaltered.  Statements only. *)
 From Coq Require Import String List Bool ZArith Lia.
-From IP Require Import Gen.SrcFacts_Agent Gen.SrcFacts_Server Lib.Header Server.HopFilter Agent.RespPath Proofs.RespPathProofs Proofs.TrailerProofs.
+From IP Require Import Gen.SrcFacts_Agent Gen.SrcFacts_Server Lib.Header Server.HopFilter Agent.RespPath Proofs.RespPathProofs Proofs.TrailerProofs Codec.Chunked Proofs.ChunkedProofs.
 Import ListNotations.
 Open Scope string_scope.
 Open Scope list_scope.
@@ -57,6 +57,20 @@ Theorem C03_trailers : forall b H T,
   forall k, hvalues k T = map snd (filter (fun t => canon (fst t) =? k) (br_declared b ++ br_undeclared b)).
 Proof. intros b H T. exact (client_trailers hopHeaders serverHopByHop (proj1 C03_tables) b H T). Qed.
 Print Assumptions C03_trailers.
+
+(* The body on the way from the agent to the proxy is carried in the chunked transfer coding (forced by
+   NewResponseForwarder, see C05_incremental_upload): for every sequence of writes of the backend's body - any number,
+   any sizes, any bytes, empty writes included - and every trailer section, the reader gets exactly the concatenation
+   of the writes and finds the trailer section untouched; so the body does not depend on how it was segmented. *)
+Theorem C03_chunked_body_roundtrip : forall (writes : list (list nat)) (trailer_section : list nat),
+  decode (encode writes trailer_section) = Some (concat writes, trailer_section ++ [CR; LF]).
+Proof. exact decode_encode. Qed.
+Print Assumptions C03_chunked_body_roundtrip.
+
+Theorem C03_resegmentation : forall (w1 w2 : list (list nat)) t, concat w1 = concat w2 ->
+  option_map fst (decode (encode w1 t)) = option_map fst (decode (encode w2 t)).
+Proof. exact resegmentation. Qed.
+Print Assumptions C03_resegmentation.
 
 (* non-vacuity: 103 + 103, repeated Set-Cookie, three announced trailers (one name twice), a hop-by-hop field *)
 Example C03_example :
